@@ -25,7 +25,7 @@ ASSUMPTIONS = ["closed form uses scipy.stats.multivariate_normal.cdf (bivariate 
                "default L requires a theta cone (ordering complexity beta is only defined there)"]
 N = {"quick": 64, "thorough": 2000}
 REQUIRE = {"quick": {"closed_form_configs": 500, "noise_below_one": 200, "noise_above_one": 60, "incomparable_configs": 100,
-                     "stat_runs": 600, "pareto_of_means_rounds": 300, "long_pareto_of_means_runs": 20}}
+                     "stat_runs": 600, "pareto_of_means_rounds": 300, "long_pareto_of_means_runs": 20, "closed_form_many_designs": 100}}
 TIMEOUT = {"quick": 1200, "thorough": 5400}
 
 
@@ -104,6 +104,41 @@ def closed_form(mon, rng):
                       f"default L={L} gives failure probability {p_fail:.4g} > delta", case)
     if len(mon.samples) < 2:
         mon.sample({**case, "p_fail": p_fail})
+
+
+def closed_form_many(mon, rng):
+    """K designs = K/2 far-apart pairs, each pair with gap eps(1+eta); pairs are mutually incomparable, their noise is
+    independent, so P(fail) >= 1 - prod(1 - p_pair): a rigorous lower bound from the real L for that K."""
+    theta = float(rng.choice([45, 60, 90, 120]))
+    order = gen.make_order("theta", theta=theta)
+    W = order.ordering_cone.W
+    a_or, _, _ = G.cone_alpha(W)
+    K = int(rng.choice([8, 16, 32, 64]))
+    noise_var = float(10 ** rng.uniform(-2, 0.5))
+    eps = float(np.sqrt(noise_var) * 10 ** rng.uniform(-0.5, 0.3))
+    delta = float(rng.choice([0.05, 0.1, 0.3]))
+    eta = float(10 ** rng.uniform(-2, -0.5))
+    u = np.array([1.0, 1.0]) / np.sqrt(2)
+    g0 = G.small_m(W, a_or, np.zeros(2), u)
+    d = u * (eps * (1 + eta) / g0)
+    off = np.array([-1.0, 1.0]) * (np.linalg.norm(d) + eps) * 50
+    mu = np.vstack([np.vstack([j * off, j * off + d]) for j in range(K // 2)])
+    name = stubs.install_dataset(stubs.grid_inputs(K, 2), mu, exact=True)
+    try:
+        alg = build(name, order, eps, delta, noise_var)
+    finally:
+        stubs.remove_dataset(name)
+    L = int(alg.L)
+    cov = (2 * noise_var / L) * (W @ W.T)
+    p_pair = 1.0 - orthant_prob(W @ d, cov)
+    p_fail_lb = 1.0 - (1.0 - p_pair) ** (K // 2)
+    mon.count("closed_form_many_designs")
+    mon.event(case_hash("cfK", theta, K, noise_var, eps, delta, eta), p_fail_lb > 1e-300, f"closed-many/K{K}/theta{theta:g}")
+    mon.stat_max("worst_pfail_over_delta_many_designs", p_fail_lb / delta)
+    if p_fail_lb > delta * (1 + 1e-6):
+        mon.violation("naive:pac-closed-form", f"{K} designs ({K // 2} independent pairs with gap {1 + eta:.3f} eps), theta={theta:g}, noise_var={noise_var:.4g}, "
+                      f"eps={eps:.4g}, delta={delta:.3g}: default L={L} gives failure probability >= {p_fail_lb:.4g} > delta",
+                      {"theta": theta, "K": K, "noise_var": noise_var, "epsilon": eps, "delta": delta, "eta": eta, "L": L})
 
 
 def is_success(W, a_or, mu, P, eps):
@@ -229,6 +264,8 @@ def shard(mon, tier, rng, shard_no, nshards):
     for it in range(n):
         for _ in range(12):
             closed_form(mon, rng)
+        for _ in range(3):
+            closed_form_many(mon, rng)
         for _ in range(4):
             pareto_of_means(mon, rng)
     for _ in range(1 if tier == "quick" else 8):
